@@ -388,6 +388,7 @@ Section EncodeP.
     from_bytes AS_WRITTEN x = Ok e ->
     exists d, e = b64_encode d /\ (exists t, d = 1 :: t \/ d = 2 :: t).
   Proof using zstd_c LIMIT.
+    clear zstd_d zstd_frame_size.
     intros x e Hcap L. unfold Payload.from_bytes.
     destruct (nada_encode x) as [ne| |]; cbn [rbind]; try discriminate.
     destruct (zstd_c x LIMIT) as [z|] eqn:EZ; cbn [rbind v_zstd_fail_is_err AS_WRITTEN]; [|discriminate].
